@@ -154,6 +154,18 @@ theorem C03_checkpoints (interval : Nat) (hard : Nat → Option Hdr) (s : St) (c
 example : (hardPass 1000 (fun h => if h = 1000 then some 5 else none) genesis
     [(1, [5, 9]), (2, [6, 9])]).2 = [(1, [5, 9])] := by decide
 
+/-- (c) the checkpoint list `resolveConflict` agrees on — whichever arm it
+took, whatever the peers answered, whichever list the map iteration met first —
+equals every hard-coded filter-header checkpoint at its height -/
+theorem C03_checkpoints_resolve (interval : Nat) (hard : Nat → Option Hdr) (s : St) (net : Net)
+    (cp : List (Peer × List Hdr)) (good : List Hdr)
+    (h : (resolveConflict interval hard s net cp).2 = .ok good) :
+    ∀ i c x, hard ((i + 1) * interval) = some c → good[i]? = some x → x = c := by
+  obtain ⟨pc, hpc, e⟩ := resolveConflict_ok interval hard s net cp good h
+  intro i c x hh hx
+  rw [← e] at hx
+  exact (C03_checkpoints interval hard s cp).1 pc hpc i c x hh hx
+
 /-- (c) on the checkpointed path: a batch that passed `verifyCheckpoint` and
 is written as it came (every batch but the re-based first one) ends exactly at
 the agreed checkpoint, which — by `C03_checkpoints` — agrees with every
